@@ -17,6 +17,7 @@ package storage
 import (
 	"context"
 	"os"
+	"path/filepath"
 	"time"
 
 	"github.com/dgraph-io/badger/v3"
@@ -68,6 +69,11 @@ func (s *SSD) Configure(config map[string]interface{}) error {
 		return err
 	}
 
+	// A process which was killed while badger was deleting the log of a flushed memtable
+	// (it truncates the file first and removes it afterwards) leaves a zero-length .mem file
+	// behind. Such a file holds nothing, but badger refuses to open a directory which has one.
+	removeEmptyMemtables(dir)
+
 	// Create the options
 	opts := badger.DefaultOptions(dir)
 	opts.SyncWrites = false
@@ -85,6 +91,16 @@ func (s *SSD) Configure(config map[string]interface{}) error {
 	s.retain = configUint32(config, "retain", defaultRetain)
 	s.cancel = async.Repeat(context.Background(), 30*time.Minute, s.GC)
 	return nil
+}
+
+// removeEmptyMemtables removes the zero-length memtable logs from the directory.
+func removeEmptyMemtables(dir string) {
+	files, _ := filepath.Glob(filepath.Join(dir, "*.mem"))
+	for _, f := range files {
+		if fi, err := os.Stat(f); err == nil && fi.Size() == 0 {
+			os.Remove(f)
+		}
+	}
 }
 
 // Store appends the messages to the store.
